@@ -39,7 +39,67 @@ Proof.
   rewrite C09_period. split; [apply Bool.orb_comm | rewrite Bool.orb_false_r; reflexivity].
 Qed.
 
+Require Import FL.Flw.Run FL.Flw.NumInv FL.Flw.NumRun FL.Flw.NumTheorems FL.Flw.NumAgeInv FL.Flw.NumAge FL.Oracles.O_Flw.
+(* END TO END, Numbers naming, every history (also with the clock set back): the rotation flag of every write is the oracle's decision
+   rotate_due on the abstract state (start instant and content of the current file) *)
+Theorem C09_numbers_age_flags c crit t0 off ops i o b :
+  numcfg c crit -> Forall basic_op ops -> nth_error ops i = Some o -> (o = OWrite b \/ o = OPlain b) ->
+  nth_error (snd (run (sys0 t0 off) (OStart c :: ops))) (S i)
+  = Some (ObsRes 0
+      match last_opt (tpartition (age_of crit) (lim_of crit) off [] None (titems t0 (firstn i ops))) with
+      | None => false
+      | Some (start, content) => rotate_due (age_of crit) (lim_of crit) off start content (clock_run t0 (firstn i ops))
+      end).
+Proof. exact (numbers_age_flags c crit t0 off ops i o b). Qed.
+
+(* ... and the files left are exactly the oracle's period partition tpartition of the timed history *)
+Theorem C09_numbers_age_partition c crit t0 off ops :
+  numcfg c crit -> Forall basic_op ops ->
+  reads c (wfs (s_w (fst (run (sys0 t0 off) (OStart c :: ops ++ [OStop])))))
+        (List.map snd (tpartition (age_of crit) (lim_of crit) off [] None (titems t0 ops))).
+Proof. exact (numbers_age_partition c crit t0 off ops). Qed.
+
+(* the property itself, without the executable oracle (pure age criterion): every record of a file lies in the period of the file's start,
+   and two consecutive files lie in different periods unless rotate() separated them *)
+Theorem C09_numbers_age_periods_pure c a t0 off ops :
+  numcfg c (CAge a) -> Forall basic_op ops ->
+  exists fl : list rfile,
+    reads c (wfs (s_w (fst (run (sys0 t0 off) (OStart c :: ops ++ [OStop]))))) (List.map rbytes fl)
+    /\ concat (List.map rrecs fl) = trecs t0 ops
+    /\ (forall f t b, In f fl -> In (t, b) (rrecs f) -> period_of a (t + off) = period_of a (rstart f + off))
+    /\ (forall f, In f fl -> rtrig f = false -> exists b rest, rrecs f = (rstart f, b) :: rest)
+    /\ List.map rstart (filter rtrig fl) = trig_times false t0 ops
+    /\ (forall i f1 f2, nth_error fl i = Some f1 -> nth_error fl (S i) = Some f2 -> rtrig f2 = false ->
+          period_of a (rstart f1 + off) <> period_of a (rstart f2 + off))
+    /\ (ticks_nonneg ops -> forall i f1 f2, nth_error fl i = Some f1 -> nth_error fl (S i) = Some f2 ->
+          (period_of a (rstart f1 + off) <= period_of a (rstart f2 + off))%Z
+          /\ (rtrig f2 = false -> (period_of a (rstart f1 + off) < period_of a (rstart f2 + off))%Z)).
+Proof. exact (numbers_age_periods_pure c a t0 off ops). Qed.
+
+(* the same for age-or-size: consecutive files differ in period or the earlier one exceeded the size limit *)
+Theorem C09_numbers_age_or_size_periods_pure c a m t0 off ops :
+  numcfg c (CAgeOrSize a m) -> Forall basic_op ops ->
+  exists fl : list rfile,
+    reads c (wfs (s_w (fst (run (sys0 t0 off) (OStart c :: ops ++ [OStop]))))) (List.map rbytes fl)
+    /\ concat (List.map rrecs fl) = trecs t0 ops
+    /\ (forall f t b, In f fl -> In (t, b) (rrecs f) -> period_of a (t + off) = period_of a (rstart f + off))
+    /\ (forall f, In f fl -> rtrig f = false -> exists b rest, rrecs f = (rstart f, b) :: rest)
+    /\ List.map rstart (filter rtrig fl) = trig_times false t0 ops
+    /\ (forall i f1 f2, nth_error fl i = Some f1 -> nth_error fl (S i) = Some f2 -> rtrig f2 = false ->
+          period_of a (rstart f1 + off) <> period_of a (rstart f2 + off) \/ (m < N.of_nat (length (rbytes f1)))%N)
+    /\ (ticks_nonneg ops -> forall i f1 f2, nth_error fl i = Some f1 -> nth_error fl (S i) = Some f2 ->
+          (period_of a (rstart f1 + off) <= period_of a (rstart f2 + off))%Z).
+Proof. exact (numbers_age_or_size_periods_pure c a m t0 off ops). Qed.
+
 Check C09_period. Check C09_rotation_iff_later_period. Check C09_model_decision.
 Print Assumptions C09_period.
 Print Assumptions C09_calendar_bijective.
 Print Assumptions C09_model_decision.
+Check C09_numbers_age_flags.
+Print Assumptions C09_numbers_age_flags.
+Check C09_numbers_age_partition.
+Print Assumptions C09_numbers_age_partition.
+Check C09_numbers_age_periods_pure.
+Print Assumptions C09_numbers_age_periods_pure.
+Check C09_numbers_age_or_size_periods_pure.
+Print Assumptions C09_numbers_age_or_size_periods_pure.
